@@ -138,3 +138,34 @@ MANIFEST_TEXT["C14"] = {
     "note": "Trusted: Lean kernel, extractor, harness. Builds on the C08 refinement theorem. protobuf getters assumed nil-safe.",
     "technique": "Lean 4 proof (corollary of the C08 refinement) + differential correspondence",
 }
+
+PROPS['C19'] = {'rule': 'subprocess runs of the tools/check binary built from the tree under check (16 in parallel): family A = for each of the 14 policy fields the complete '
+         'matrix config class {absent, matching, mismatching, malformed lengths / >65535} x flag class {absent, empty, matching (hex, upper case, base64, '
+         '0x/0b literals, zero-stripped), mismatching, short-padded, blank, too long, not hex, >32 bit, negative} x config {none, binary, .textproto} x {Intel '
+         'sample quote, generated-PKI quote}; family C = exhaustive config/flag check_crl x get_collateral (incl. the conflict and `maybe`) and config '
+         'cabundle_paths x cabundles x -trusted_roots over {Intel root, generated root, unrelated root, file without certificates, missing file}; family F = '
+         'config shapes with absent sub-messages (policy / header_policy / td_quote_body_policy / root_of_trust) x flags; family Q = {valid, generated, '
+         'signature-corrupted, unparsable, empty-message} quote x bin/proto/textproto x file/stdin/missing/-inform=der; family B = pairwise covering rows over '
+         'all 41 dimensions with the other choices benign (thorough: plus 24 000 rows around uncovered triples); family N = real getter with the network '
+         "unreachable (dead proxy), -get_collateral from flag or config; family P = command lines Go's flag package rejects; plus in-process errors.As checks "
+         'for each of the four fetches failing in turn. A case is non-trivial when command line and config are well formed (the run reaches the consistency '
+         'check, the quote and the library); distinct = distinct abstract invocations',
+ 'trusted_base': ['the library verdicts (verify.RootOfTrustToOptions, verify.TdxQuote, validate.PolicyToOptions, validate.TdxQuote) enter the model as '
+                  "per-case tables computed in-process; their correctness is C01-C14's business",
+                  "github.com/google/go-sev-guest/tools/lib/cmdline (hex-then-base64 decoding of byte flags) and Go's flag package are abstracted to tokens "
+                  '(decoded bytes / malformed); google.golang.org/protobuf decoding of the config file is abstracted to the message'],
+ 'assumptions': ['no network: the real getter is pointed at a dead local proxy, so every fetch fails at once; the in-process counterpart is a getter that '
+                 'always fails',
+                 "the Intel sample quote's certificates are valid at the wall clock (PCK leaf until 2029-09-20); the generated-PKI quote covers exit 0/4 "
+                 'independently of it']}
+
+MANIFEST_TEXT['C19'] = {'text': 'Lean theorems over all config shapes, flag tokens and library verdicts (exit_zero_iff: exit 0 iff the invocation is usable, the quote verifies under '
+         'the effective root of trust, the effective policy converts and is satisfied; exit_code_table: usage 1 / verification 2 / download 3 / policy 4, '
+         'total and injective; flag_overrides_config_* and unset_flag_keeps_config_* for bool, numeric, sized-bytes, rtmrs and path fields; '
+         'network_failure_is_exit_3 and download_error_is_distinguishable for the four fetches; never_crashes / merge_never_crashes for every absent '
+         'sub-message), tied to tools/check by regenerated exit codes, defaults and field sizes and by running the built binary over a structured grid whose '
+         'expected class comes from in-process library calls on the effective settings.',
+ 'note': 'Trusted: Lean kernel (axioms propext/Classical.choice/Quot.sound at most), extractor, harness. Abstracted: flag/protobuf/cmdline decoding (tokens), '
+         "the library's verdicts (per-case tables from in-process calls), the network (dead proxy / failing getter). The tool has no verification-time flag, "
+         'so with collateral only exit 2/3 are reachable; exit 0/4 are exercised without collateral under the embedded root and a generated root bundle.',
+ 'technique': 'Lean 4 proof (decision table + merge) + differential correspondence at process level'}
